@@ -12,7 +12,7 @@ impl_kiter!([T: konst::iter::Step] kr::RangeIterRev<T>, T);
 impl_kiter!([T: konst::iter::Step] kr::RangeInclusiveIter<T>, T);
 impl_kiter!([T: konst::iter::Step] kr::RangeInclusiveIterRev<T>, T);
 
-const RULE: &str = "cases = (type, start, end, a..b | a..=b | a.. , history pattern of front/back steps run 2 steps past exhaustion or to a step cap); oracle = core::ops::{Range,RangeInclusive,RangeFrom} iterators stepped with next/next_back, through iter::into_iter! (by value and by reference), its .rev() (roles swapped), .rev().rev(), and iter::for_each! with and without rev(), and for_range! (integer types, a..b, with break / continue in the body); a.. is never asked to step past MAX in builds with overflow checks (std and konst both panic there), and is stepped 3 items past MAX in the release build (both wrap); non-trivial = range touches MIN/MAX/the surrogate gap and the history uses both ends, or the range is inverted/empty; distinct by the whole tuple";
+const RULE: &str = "cases = (type, start, end, a..b | a..=b | a.. , history pattern of front/back steps run 2 steps past exhaustion or to a step cap); oracle = core::ops::{Range,RangeInclusive,RangeFrom} iterators stepped with next/next_back, through iter::into_iter! (by value and by reference), its .rev() (roles swapped), .rev().rev(), and iter::for_each! with and without rev(), and for_range! (integer types, a..b, with break / continue in the body); a.. is never asked to step past MAX in builds with overflow checks (std and konst both panic there), and is stepped 3 items past MAX in the release build (integers: both wrap; char: std panics in every build, listed finding); non-trivial = range touches MIN/MAX/the surrogate gap and the history uses both ends, or the range is inverted/empty; distinct by the whole tuple";
 
 #[derive(Serialize, Deserialize, Debug, Clone, Copy, Hash, PartialEq, Eq)]
 enum Ty {
@@ -310,6 +310,38 @@ where
                     Err(msg) => return Err(format!("TAKE_EXTRA_PULL for_each!{{x in {:?}.., take({m})}} panicked ({msg}); std yields {} values up to MAX-1 without overflow", a, want.len())),
                 }
             }
+            // char: std's RangeFrom<char> panics in every build when it has to step past char::MAX (Step::forward of char
+            // is the checked default), it never wraps.  With overflow checks konst panics as well (compared above by
+            // never asking for MAX); without them this asks for 3 items beyond.
+            if !T::IS_INT && !cfg!(debug_assertions) && room < cap as u128 {
+                let m = room as usize + 3;
+                let want = kvh::catch(|| (a..).take(m).collect::<Vec<T>>());
+                let got = kvh::catch(|| {
+                    let mut k = into_iter!(a..);
+                    let mut got = Vec::new();
+                    for _ in 0..m {
+                        match k.copy().next() {
+                            Some((x, nx)) => {
+                                got.push(x);
+                                k = nx;
+                            }
+                            None => break,
+                        }
+                    }
+                    got
+                });
+                match (want, got) {
+                    (Err(_), Err(_)) => {}
+                    (Ok(w), Ok(g)) => ensure!(g == w, "into_iter!({:?}..) stepped past MAX: konst {:?} std {:?}", a, g, w),
+                    (Ok(w), Err(msg)) => return Err(format!("into_iter!({:?}..) stepped past MAX: konst panicked ({msg}), std yields {:?}", a, w)),
+                    (Err(_), Ok(g)) => {
+                        // alternative model of the listed finding: a..=MAX, then '\0', '\u{1}'
+                        let tail = format!("{:?}", &g[g.len().saturating_sub(3)..]);
+                        let wrapped = g.len() == m && tail == "['\\u{10ffff}', '\\0', '\\u{1}']";
+                        return Err(format!("{} into_iter!({:?}..) asked for {m} items: std panics when it has to step past char::MAX, konst yields {:?}", if wrapped { "CHAR_WRAP" } else { "no panic:" }, a, g));
+                    }
+                }
+            }
         }
     }
     Ok(())
@@ -384,6 +416,14 @@ fn routed(ctx: &mut Ctx, c: &Case) -> Result<(), String> {
                 // alternative model: the only disagreement is the debug overflow assertion raised by the
                 // (n+1)-th pull that `take(n)` performs; everything else about the case was compared first
                 if ctx.known_hit("take-pulls-one-extra-item", || json!({"case": c, "message": m})) {
+                    Ok(())
+                } else {
+                    Err(m)
+                }
+            }
+            Err(m) if m.starts_with("CHAR_WRAP") => {
+                // alternative model (checked in run_case): everything up to char::MAX is std's, then konst wraps to '\0'
+                if ctx.known_hit("char-range-from-wraps-past-max-without-debug-assertions", || json!({"case": c, "message": m})) {
                     Ok(())
                 } else {
                     Err(m)
